@@ -207,3 +207,12 @@ def chain_argparse_class_documented(ir):
 
 def chain_argparse_function_documented(ir):
     return _hop("function", _hop("argparse", ir))
+
+
+def argparse_function_roundtrip_documented(ir):
+    """as argparse_function_roundtrip; verified with the emitted function's docstring PRESENT (the parser then skips the first statement)"""
+    from doctrans.emit import argparse_function
+    from doctrans.parse import argparse_ast
+
+    fd = argparse_function(ir, emit_default_doc=False, function_name="set_cli_args", function_type="static", word_wrap=False)
+    return argparse_ast(fd, function_name="set_cli_args")
